@@ -41,6 +41,10 @@ def run(chk):
     chk.rule("C17-D2.backup", "in checkpoint() the truncating stream that receives grid.write is preceded on every path by a completed copy of the current file into a *different* path, whose streams are destroyed first")
     chk.rule("C17-D3.validate", "every deserialiser called in the recovery try-blocks ends in a stream / end-marker validation throwing a type the handler catches; recovered samples are loaded only after both reads returned")
     chk.rule("C17-D4.sites", "every path from complete.add(...) to the end of the iteration passes checkpoint(); the parallel collector reports true whenever it stored a sample and the main loop checkpoints on true")
+    chk.rule("C17-D7.dryrun", "recovery overwrites the caller's grid and sample store only after the same file was read completely into temporaries: a corrupt checkpoint leaves the objects "
+                              "that are needed to start over untouched")
+    chk.rule("C17-D8.flush", "every evaluation of the candidates callback is preceded, in the same function, by load_complete(): samples that are stored but not yet in the grid "
+                             "(after a restart: the ones recovered from the checkpoint) must not be proposed again")
     chk.rule("C17-D5.budget", "after recovery the launched-sample count is initialised from both the loaded points and the recovered-but-not-yet-loaded samples")
 
     for fn in cores:
@@ -57,8 +61,31 @@ def run(chk):
         chk.saw(ckpt)
         # ---- D1
         reads = {p for _, p in stream_decls(fn, "ifstream")}
+        recov = []          # functions (the core or a helper lambda) that contain the recovery try blocks
+        for l in lams:
+            v = lambda_var(fn, l)
+            if v is None or v["name"] == "checkpoint":
+                continue
+            lr = stream_decls(l, "ifstream")
+            if not lr or not any(n.get("k") == "CXXTryStmt" for n in walk(l.body)):
+                continue
+            recov.append(l)
+            chk.saw(l)
+            pnames = {p_["name"]: i for i, p_ in enumerate(l.params())}
+            for _, pth in lr:
+                if pth in pnames:
+                    # the path is a parameter of the helper: the files read are the arguments of its calls
+                    for c in fn.walk(into_lambda=False):
+                        if c.get("k") == "CXXOperatorCallExpr" and c.get("op") == "()" and var_of(c["c"][1]) == v["did"]:
+                            args = [x for x in c["c"][2:] if isinstance(x, dict)]
+                            if len(args) > pnames[pth]:
+                                reads.add(txt(strip(args[pnames[pth]])))
+                else:
+                    reads.add(pth)
         writes = {p for _, p in stream_decls(fn, "ofstream")} | {p for _, p in stream_decls(ckpt, "ofstream")}
         # the copy source inside checkpoint() is not a recovery read
+        chk.ob("C17-D1.files", fn.name, "recovery consults two different files (main checkpoint, then the backup)", len(reads) == 2, fn.where,
+               "files read on recovery: %s" % sorted(reads), "filename and filename_old")
         chk.ob("C17-D1.files", fn.name, "recovery read set == checkpoint write set", reads == writes and len(reads) == 2, fn.where,
                "files read on recovery: %s, files written by checkpoints: %s" % (sorted(reads), sorted(writes)))
         # ---- D2
@@ -112,9 +139,9 @@ def run(chk):
         chk.ob("C17-D2.backup", fn.name + "::checkpoint", "backup of %s before it is truncated" % main[1], ok, ckpt.loc(main[0]), detail)
         # the initial checkpoint (outside the lambda) writes the main file only after the recovery block
         # ---- D3
-        tries = [n for n in walk(fn.body, into_lambda=False) if n.get("k") == "CXXTryStmt"]
-        chk.floor("C17-D3.validate", len(tries), 2, "recovery try blocks")
-        for t in tries:
+        tries = [(fn, n) for n in walk(fn.body, into_lambda=False) if n.get("k") == "CXXTryStmt"] + [(l, n) for l in recov for n in walk(l.body) if n.get("k") == "CXXTryStmt"]
+        chk.floor("C17-D3.validate", len(tries), 1, "recovery try blocks")
+        for tfn, t in tries:
             caught = [c.get("catch", "") for c in t.get("c", []) if c.get("k") == "CXXCatchStmt"]
             body = t["c"][0]
             for c in walk(body):
@@ -156,13 +183,27 @@ def run(chk):
                             if after:
                                 val_ok = True
                                 vdetail = "validated by `%s`" % txt(after[-1])[:70]
-                    chk.ob("C17-D3.validate", name, "%s validates its input" % short(cal.rsplit("::", 1)[0]) + "::read @%d" % c.get("l", 0), val_ok, fn.loc(c), vdetail)
+                    chk.ob("C17-D3.validate", name, "%s validates its input" % short(cal.rsplit("::", 1)[0]) + "::read @%d" % c.get("l", 0), val_ok, tfn.loc(c), vdetail)
                     cov = all(any(short(x) in ct for ct in caught) for x in thrown) if thrown else False
                     chk.ob("C17-D3.validate", name, "handler catches what %s throws @%d" % (short(cal.rsplit("::", 1)[0]) + "::read", c.get("l", 0)), cov, fn.loc(c),
                            "throws %s, handler catches %s" % (sorted(short(x) for x in thrown), caught))
+                    # ---- D7: the caller's objects are overwritten only after a dry run into temporaries
+                    recv = strip(call_object(c))
+                    is_local = recv is not None and recv.get("k") == "DeclRefExpr" and any(d.get("did") == recv.get("did") for d in tfn.locals().values())
+                    if not is_local:
+                        want_t = "TasmanianSparseGrid" if "TasmanianSparseGrid" in cal else "CompleteStorage"
+
+                        def dry(x, want_t=want_t, tfn=tfn):
+                            if callee(x) != cal:
+                                return False
+                            r0 = strip(call_object(x))
+                            return r0 is not None and r0.get("k") == "DeclRefExpr" and any(d.get("did") == r0.get("did") and want_t in d.get("t", "") for d in tfn.locals().values())
+                        okd = bool(must_pass_before(tfn, c, dry))
+                        chk.ob("C17-D7.dryrun", name, "%s.read @%d only after a dry run into a temporary" % (txt(recv), c.get("l", 0)), okd, tfn.loc(c),
+                               "" if okd else "a checkpoint that is torn after its header clears the caller's object before the reader throws: nothing is left to start over from")
             # good() test before reading
             gd = [x for x in walk(body) if (callee(x) or "").endswith("::good")]
-            chk.ob("C17-D3.validate", name, "missing file is detected before reading (try @%d)" % t.get("l", 0), bool(gd), fn.loc(t))
+            chk.ob("C17-D3.validate", name, "missing file is detected before reading (try @%d)" % t.get("l", 0), bool(gd), tfn.loc(t))
         # loading of recovered samples is outside the try blocks
         for c in fn.calls("TasGrid::CompleteStorage::load", into_lambda=False):
             inside = any(a.get("k") == "CXXTryStmt" for a in fn.ancestors(c))
@@ -193,6 +234,21 @@ def run(chk):
                     edges = [(txt(strip(x)), tr) for x, tr in cond_edges_dominating(fn, c)]
                     if any(e[0] == "collect_finished()" for e in edges):
                         chk.ob("C17-D4.sites", name, "parallel loop: checkpoint when the collector stored samples", ("collect_finished()", True) in edges, fn.loc(c), str(edges))
+        # ---- D8: finished samples are loaded before new candidates are computed
+        cparam = next((p_ for p_ in fn.params() if p_["name"] == "candidates"), None)
+        lcv = next((lambda_var(fn, l) for l in lams if (lambda_var(fn, l) or {}).get("name") == "load_complete"), None)
+        if cparam is None or lcv is None:
+            raise AnalysisBroken("candidates parameter / load_complete helper not found in " + name)
+        ncand = 0
+        for g in [fn] + lams:
+            for c in g.walk(into_lambda=False):
+                if c.get("k") == "CXXOperatorCallExpr" and c.get("op") == "()" and var_of(c["c"][1]) == cparam["did"] and (g is not fn or is_reachable(fn, c)):
+                    ncand += 1
+                    chk.saw(g)
+                    ok = bool(must_pass_before(g, c, lambda x, did=lcv["did"]: x.get("k") == "CXXOperatorCallExpr" and x.get("op") == "()" and var_of(x["c"][1]) == did))
+                    chk.ob("C17-D8.flush", name, "candidates(grid) @%d is preceded by load_complete()" % c.get("l", 0), ok, g.loc(c),
+                           "" if ok else "samples that are finished (or recovered from the checkpoint) but not yet loaded are offered again: the model is evaluated twice at the same point and the budget is spent on duplicates")
+        chk.floor("C17-D8.flush", ncand, 1, "evaluations of the candidates callback")
         # ---- D5
         tl = [d for d in fn.locals().values() if d.get("name") == "total_num_launched" and d.get("c")]
         if not tl:
@@ -200,7 +256,7 @@ def run(chk):
         it = txt(strip(tl[0]["c"][0]))
         chk.ob("C17-D5.budget", name, "launched count starts from stored + loaded", "complete.getNumStored()" in it and "grid.getNumLoaded()" in it and "+" in it, fn.loc(tl[0]), it)
         # and the recovery block precedes it
-        rb = [t for t in tries]
+        rb = [t for tfn_, t in tries]
         chk.ob("C17-D5.budget", name, "count initialised after the recovery block", all(t.get("l", 0) < tl[0].get("l", 0) for t in rb), fn.loc(tl[0]))
 
     # ---- D6: restored construction data are rebuilt in place (a by-value range-for would update copies)
